@@ -74,10 +74,17 @@ fn real_opts(prop: &str, rng: &mut Rng) -> GenOpts {
 pub fn new_world(env: &RealEnv, dir: &std::path::Path, mut proj: Project, rng: &mut Rng) -> World {
     proj.agent = env.agent.to_string_lossy().into_owned();
     // discovered deps travel through real depfiles or /showIncludes output
-    for s in proj.steps.iter_mut() {
+    // depfiles kept in a sibling of an object directory that is a symbolic link to a scratch area:
+    // `objlink/../depsdir/x.d` is `<scratch>/depsdir/x.d` to the OS, whatever it looks like lexically
+    let mut linked_deps = false;
+    for (si, s) in proj.steps.iter_mut().enumerate() {
         if s.discovers {
             if rng.chance(2, 3) {
                 s.depfile = Some(format!("{}.d", s.outs[0]));
+                if rng.chance(1, 6) {
+                    s.depfile = Some(format!("objlink/../depsdir/s{}.d", si));
+                    linked_deps = true;
+                }
                 // both mechanisms switched on: a compiler that writes a depfile and prints no include
                 // notes reports exactly the depfile's prerequisites
                 s.msvc = rng.chance(1, 4);
@@ -97,6 +104,11 @@ pub fn new_world(env: &RealEnv, dir: &std::path::Path, mut proj: Project, rng: &
     w.init_sources(rng);
     w.write_manifest();
     std::fs::create_dir_all(dir.join(".n2v")).unwrap();
+    if linked_deps {
+        std::fs::create_dir_all(dir.join(".n2v/scratch/obj")).unwrap();
+        std::fs::create_dir_all(dir.join(".n2v/scratch/depsdir")).unwrap();
+        let _ = std::os::unix::fs::symlink(".n2v/scratch/obj", dir.join("objlink"));
+    }
     w
 }
 
